@@ -105,6 +105,13 @@ Theorem C11_empty_batch_rejected :
 Proof. exact empty_batch_rejected. Qed.
 Print Assumptions C11_empty_batch_rejected.
 
+(** F11e: with a log handler the transform is wrapped, the type test for *JavascriptTransform fails and the parallel
+    workers share one JS runtime (data race): 45 configurations of the lattice whose outcome on the pinned tree is not
+    determined ([racy]); none once the workers are cloned.  ([C11_current_char] describes the run without the race.) *)
+Theorem C11_racy : length (filter (racy jcurrent) all_cfgs) = 45%nat /\ forall c, racy jfixed c = false.
+Proof. split; [exact racy_current_count | exact racy_fixed]. Qed.
+Print Assumptions C11_racy.
+
 (** tie to the correspondence check *)
 Theorem C11_agree_implies_spec : forall c, 0 <= t_capF c -> 0 <= t_capI c ->
   agree jfixed c = true -> spec_ok c = true.
